@@ -597,6 +597,6 @@ def check_op(inst, rec, oc, labels):
         if inst.susp and any(s <= t1 < r for s, r in inst.susp if s < r) and t1 > t0:
             sig = "suspended-actor-makes-progress"
         if t1 == t0 and [t0, t0] in inst.susp and min(exp) > t0:
-            # suspended and resumed by two other actors in the very round in which it issued this blocking request (known/C11.json)
+            # suspended and resumed by two other actors in the very round in which it issued this blocking request (known_findings.json (C11))
             sig = "resume-in-the-round-of-a-blocking-request:returns-at-once"
         oc.bad(sig, "%s returned at %r, expected %s%s" % (who, t1, sorted(exp), "; suspensions %s" % inst.susp if inst.susp else ""))
